@@ -837,11 +837,12 @@ theorem isEmbedding_iff_documented (g : QGraph) (m : Mol) (sssr : List (List Nat
     injective, every pattern atom on an atom that `Matches` it, every pattern bond on a bond that `BondMatches` it, no molecule bond
     between the images of unjoined atoms of one pattern component, different components apart. -/
 theorem pattern_match_is_documented (g : QGraph) (m : Mol) (sssr : List (List Nat)) (tComps : List (List Nat))
-    (hq : (qIsoGraph g).WF = true) (ht : (molIsoGraph m).WF = true) (hm : m.WF = true)
+    (hq : (qIsoGraph g).WF = true) (hm : m.WF = true)
     (hpart : Iso.checkComponents (molIsoGraph m) tComps = true) (hne : g.atoms ≠ [])
     (hQ : ∀ p ∈ g.atoms, QWF p.2) (hz : ∀ p ∈ m.atoms, 1 ≤ p.2.z ∧ p.2.z ≤ 118) :
     ∃ comps cl r, Iso.compileQuery (qIsoGraph g) = some (comps, cl) ∧ patternMapping g m sssr tComps = some r ∧ r.Nodup ∧
       ∀ d, d ∈ r ↔ ∃ f, d = asDict (comps.flatten.map (·.front)) f ∧ DocEmbedding g m sssr f := by
+  have ht : (molIsoGraph m).WF = true := molIso_wf m hm
   have hb : ChythonModel.Props.C07.BondSymm (matchProblem g m sssr tComps).bondOk :=
     fun u v x y => bondOkOf_symm g m sssr hm u v x y
   have hat : (matchProblem g m sssr tComps).q.atoms ≠ [] := by
@@ -875,12 +876,12 @@ def exRings : List (List Nat) := [[1, 2, 4], [2, 3, 4]]
 /-- the hypotheses of `pattern_match_is_documented` are satisfiable by a ring-closure pattern on a cage, and the result is not
     trivial: the constrained atom goes onto a bridgehead (atom 2 or 4), 2 bridgeheads × 2 triangles × 2 directions = 8 mappings,
     none of them using the two non-bonded atoms 1 and 3 together -/
-example : (qIsoGraph exRingPattern).WF = true ∧ (molIsoGraph exCage).WF = true ∧ exCage.WF = true ∧
+example : (qIsoGraph exRingPattern).WF = true ∧ exCage.WF = true ∧
     Iso.checkComponents (molIsoGraph exCage) [[1, 2, 3, 4]] = true ∧ (∀ p ∈ exRingPattern.atoms, QWF p.2) ∧
     (∀ p ∈ exCage.atoms, 1 ≤ p.2.z ∧ p.2.z ≤ 118) ∧
     (patternMapping exRingPattern exCage exRings [[1, 2, 3, 4]]).map
         (fun r => (r.length, r.all fun d => !(d.any (·.2 == 1) && d.any (·.2 == 3)))) = some (8, true) := by
-  refine ⟨by decide +kernel, by decide +kernel, by decide +kernel, by decide +kernel, by decide +kernel, by decide +kernel, by decide +kernel⟩
+  refine ⟨by decide +kernel, by decide +kernel, by decide +kernel, by decide +kernel, by decide +kernel, by decide +kernel⟩
 
 /-- every atom `buildAtoms` returns was built by `buildAtom`, hence is well-formed -/
 theorem buildAtoms_wf : ∀ (ps : List Parsed) (ns : List Nat) (i : Nat) (rad seen : List Nat) (l : List (Nat × QAtom)),
